@@ -23,7 +23,7 @@ pub const BACKSTOP: u64 = 16384;
 pub const GROWTH: f64 = 3.0;
 pub const GROWTH_MIN_INPUT: u64 = 4096;
 /// wall-time law (ladder only): time per byte of (input + result + templates) at a size where a call takes >= 20 ms may
-/// not exceed 10x its minimum at a smaller size; candidates are re-measured alone (one worker) twice before they count
+/// not exceed 10x its minimum at a smaller size; candidates are re-measured alone (one worker) three times and judged on the per-point minima
 pub const TIME_GROWTH: f64 = 10.0;
 pub const TIME_FLOOR_US: u64 = 20_000;
 
@@ -190,6 +190,24 @@ impl C15Space {
         out
     }
 }
+/// the rung [lo, hi) measured alone (one worker) three times; per point the measurement with the smallest wall time is
+/// kept (other processes can only slow a measurement down)
+fn solo_min3(cfg: &SweepCfg, fam: &str, lo: u64, hi: u64) -> SweepResult {
+    let solo = SweepCfg { workers: 1, chunk: 1, ..clone_cfg(cfg) };
+    let mut best = run_range(&solo, fam, lo, hi);
+    for _ in 0..2 {
+        let rr = run_range(&solo, fam, lo, hi);
+        for (idx, ms) in rr.meas {
+            if let Some(b) = best.meas.iter_mut().find(|b| b.0 == idx) {
+                if ms[5] < b.1[5] {
+                    b.1 = ms;
+                }
+            }
+        }
+    }
+    best
+}
+
 impl Space for C15Space {
     fn name(&self) -> String {
         self.fam.name()
@@ -209,8 +227,7 @@ impl Space for C15Space {
             None => (idx, idx + 1),
         };
         // measured alone (one worker), with the wall-time law on
-        let solo = SweepCfg { workers: 1, chunk: 1, ..clone_cfg(&self.cfg) };
-        let r = run_range(&solo, &self.fam.name(), lo, hi);
+        let r = solo_min3(&self.cfg, &self.fam.name(), lo, hi);
         let me = C15Space { cfg: clone_cfg(&self.cfg), fam: self.fam.clone(), labels: self.labels.clone(), time_law: true };
         Eval { key: 0, transitions: 0, issues: me.issues_of(&r).into_iter().map(|(s, (_, _, d))| issue(s, d)).collect(), tags: vec![] }
     }
@@ -258,7 +275,7 @@ pub fn run(tier: &str) -> i32 {
         let r = run_range(&cfg, &fam.name(), 0, size);
         let sp = C15Space { cfg, fam, labels, time_law: false };
         let mut issues = sp.issues_of(&r);
-        // wall-time law: candidates from the parallel run are re-measured alone, twice, and count only if both agree
+        // wall-time law: candidates from the parallel run are re-measured alone three times and judged on the per-point minima
         let cands = sp.time_candidates(&r);
         let mut unconfirmed_time = 0u64;
         if let Some(labels) = &sp.labels {
@@ -269,22 +286,12 @@ pub fn run(tier: &str) -> i32 {
                 let name = sig.trim_start_matches("time-growth-law/");
                 let lo = labels.iter().position(|x| x.0 == name).unwrap() as u64;
                 let hi = labels.iter().rposition(|x| x.0 == name).unwrap() as u64 + 1;
-                let mut solo = SweepCfg { workers: 1, ..clone_cfg(&sp.cfg) };
-                solo.chunk = 1;
-                let mut agree = 0;
-                let mut last = None;
-                for _ in 0..2 {
-                    let rr = run_range(&solo, &sp.fam.name(), lo, hi);
-                    if let Some(c) = sp.time_candidates(&rr).into_iter().find(|c| c.0 == sig) {
-                        agree += 1;
-                        last = Some(c);
-                    }
-                }
-                match (agree, last) {
-                    (2, Some((s2, idx, d))) => {
+                let best = solo_min3(&sp.cfg, &sp.fam.name(), lo, hi);
+                match sp.time_candidates(&best).into_iter().find(|c| c.0 == sig) {
+                    Some((s2, idx, d)) => {
                         issues.insert(s2, (1, idx, d));
                     }
-                    _ => unconfirmed_time += 1,
+                    None => unconfirmed_time += 1,
                 }
             }
         }
@@ -319,7 +326,7 @@ pub fn run(tier: &str) -> i32 {
         tier: tier.into(),
         level: "model_checking",
         rule: "every point of the scale ladder (every structural repetition at n in {1..16, 24, 32, ... x1.33/1.5 ..., max-1, max} up to the 65 535-byte datagram limit; quick: 12 sizes per rung) and every case of the V9 and IPFIX grammar products is executed in an isolated worker whose counting allocator measures T (bytes requested during the call), Pk (peak live above entry), R (bytes live at return), with |x| and W (wire size of cached templates). Laws: Pk <= 8|x| + 2R + 64W + 256 KiB; R <= 2048(|x|+W) + 64 KiB; T <= 16384(|x|+R); and per rung, (T - 64W)/(|x|+R) at any n with |x| >= 4 KiB may not exceed 3x its minimum at a smaller such n (super-linear growth). Distinct by (T, Pk, elements)".into(),
-        bounds: json!({"peak_law": "Pk <= 8|x| + 2R + 64W + 262144", "output_law": "R <= 2048(|x|+W) + 65536", "backstop": "T <= 16384(|x|+R)", "growth_law": "(T-64W)/(|x|+R) <= 3 x min at smaller n, |x| >= 4096", "time_growth_law": "wall/(|x|+R+W) <= 10 x min at smaller n for calls >= 20 ms, confirmed by two isolated re-measurements", "live_heap_budget": 4u64<<30}),
+        bounds: json!({"peak_law": "Pk <= 8|x| + 2R + 64W + 262144", "output_law": "R <= 2048(|x|+W) + 65536", "backstop": "T <= 16384(|x|+R)", "growth_law": "(T-64W)/(|x|+R) <= 3 x min at smaller n, |x| >= 4096", "time_growth_law": "wall/(|x|+R+W) <= 10 x min at smaller n for calls >= 20 ms, judged on the per-point minimum of three isolated re-measurements", "live_heap_budget": 4u64<<30}),
         assumptions: vec!["constants are chosen (about 3x head-room over the measured benign maxima, which are reported under measured_maxima)".into(), "the growth law compares against the minimum ratio at smaller sizes rather than consecutive pairs, because amortised Vec doubling makes consecutive ratios jump by up to 1.5x".into()],
         trusted_base: vec!["alloc.rs counting allocator".into(), "sweep.rs".into()],
         required_tags: vec![],
